@@ -5,7 +5,7 @@ from .p_common import TB, PROFILES
 
 def check():
     return solvercheck.run(
-        "C18", None,
+        "C18", "C18.v",
         [dict(profile=PROFILES["output"], n_quick=300, n_thorough=5000),
          dict(profile=PROFILES["plain"], n_quick=60, n_thorough=1000)],
         [oracles.oracle_C18, oracles.oracle_shapes], TB,
